@@ -10,6 +10,8 @@ from pyvc.spec import contract, schema, spec, implies, iff, forall, exists, int_
 schema('IntegerPoint', 'cylc.flow.cycling.integer:IntegerPoint', fields={'value': 'str'})
 schema('IntegerInterval', 'cylc.flow.cycling.integer:IntegerInterval', fields={'value': 'str'})
 
+from cylc.flow.cycling.integer import REC_INTERVAL, REC_RELATIVE_POINT  # noqa: E402,F401
+
 M = 'cylc.flow.cycling.integer:'
 B = 'cylc.flow.cycling:'
 
@@ -149,6 +151,17 @@ contract(M + 'IntegerInterval.__int__',
          raises={'ValueError': 'not iv_ok(self)'},
          ensures={'view': 'result == iiv(self)'},
          pure=True, props=['C18'])
+
+contract(M + 'IntegerInterval.__init__',
+         sorts={'self': 'IntegerInterval', 'value': 'str'},
+         raises={'IntervalParsingError': 'REC_INTERVAL.search(value) is None'},
+         ensures={'stored': 'self.value == value'},
+         # a fact about strings, not about the code: text matching ^[-+]?P\d+$ is integer
+         # text once the P is removed, non-negative unless it starts with '-'.
+         # Checked natively by the differential run, assumed at call sites.
+         trusted_ensures={'shape': "iv_ok(self) and (iiv(self) < 0) == "
+                                   "(value.startswith('-') and iiv(self) != 0)"},
+         modifies=['self.value'], props=['C18'])
 
 contract(M + 'IntegerInterval.from_integer', variant='int',
          sorts={'cls': 'IntegerInterval', 'integer': 'int', 'result': 'IntegerInterval'},
